@@ -32,7 +32,6 @@ var c12Pipelines = []string{
 	`numbers(n).multiUse({f:l->l.first(),s:l->l.top(2).size()}).f`,
 	`numbers(n).multiUse({f:l->l.first(),s:l->l.present(x->x>3)}).s`,
 	`[1,2,3]=[1,2,4]`,
-	`numbers(n).map(x->x+a)=numbers(n).map(x->x+a+1)`,
 	`numbers(n).map(x->x+a).top(4)=numbers(n).map(x->x+a).top(4)`,
 	`numbers(10).map(x->if x=a then throw("e") else x).merge(numbers(10),(p,q)->p<q).size()`,
 	`numbers(10).multiUse({f:l->l.map(x->if x=a then throw("e") else x).size(),s:l->l.size()}).s`,
